@@ -36,6 +36,21 @@ Proof.
 Qed.
 Print Assumptions C06_plain_prose_fixed_point.
 
+(* (1') the same in multi-language mode: one part, labelled with the given
+   language *)
+Theorem C06_plain_prose_fixed_point_multi :
+  forall is_word files lang simple mods latex thresh fuel out,
+  plain_doc py_tables latex -> latex <> [] ->
+  run_tex2txt py_tables is_word files lang true simple mods [] latex [] None false
+              thresh fuel = Ok out ->
+  to_result out = TMulti [(lang, [(latex, zseq 1 (length latex))])].
+Proof.
+  exact (fun is_word files lang simple mods latex thresh fuel out =>
+           plain_fixed_point_multi py_tables is_word files lang simple mods latex thresh
+                                   fuel out (proj1 C06_tables_ok)).
+Qed.
+Print Assumptions C06_plain_prose_fixed_point_multi.
+
 (* (2) longest match *)
 Theorem C06_longest_match : forall latex c s start t,
   let P := t_scan py_tables in
